@@ -69,6 +69,8 @@ type Grammar struct {
 	FileNode  bool
 	Extra     []string // extraTypes option entries
 	EmptyNode bool     // grammar contains arrows around possibly empty content
+	TwinLists bool     // two lists whose elements differ in the arrow name only
+	Chains    int      // node bodies with two separate chains of same-typed fields, the first ending optional
 }
 
 // ---------------------------------------------------------------------------
@@ -168,11 +170,51 @@ func (x *gen) element(nt, depth int, ctx *nodeCtx, inSoft bool) []*Expr {
 	r := x.r
 	var e *Expr
 	needCloser := false
-	k := r.Intn(25)
+	k := r.Intn(27)
 	if depth >= 2 && k >= 14 && k < 20 {
 		k = r.Intn(14)
 	}
 	switch {
+	case k >= 25: // two separate chains of same-typed fields, the first one ending with an optional field
+		if depth > 0 || inSoft {
+			return []*Expr{x.punct()}
+		}
+		// candidates with pairwise disjoint types: injected tokens and node nonterminals reporting one own type
+		type cand struct {
+			tok bool
+			i   int
+		}
+		var cs []cand
+		for i := range x.g.Toks {
+			if !ctx.tokUsed[i] {
+				cs = append(cs, cand{true, i})
+			}
+		}
+		for i, n := range x.g.Nonterms {
+			if i > 0 && n.Kind == NNode && x.uni[i] && x.nrules[i] > 0 && !ctx.used[i] {
+				cs = append(cs, cand{false, i})
+			}
+		}
+		gd, ok := x.guard()
+		if len(cs) < 2 || !ok {
+			return []*Expr{x.punct()}
+		}
+		a := r.Intn(len(cs))
+		b := r.Intn(len(cs) - 1)
+		if b >= a {
+			b++
+		}
+		mk := func(c cand) *Expr {
+			if c.tok {
+				ctx.tokUsed[c.i], ctx.tokSoft[c.i] = true, true
+				return &Expr{Kind: KTok, Sym: c.i, Field: x.fieldName()}
+			}
+			ctx.used[c.i], ctx.soft[c.i] = true, true
+			return &Expr{Kind: KRef, Sym: c.i, Field: x.fieldName()}
+		}
+		x.g.Chains++
+		opt := &Expr{Kind: KOpt, Sub: []*Expr{{Kind: KSeq, Sub: []*Expr{{Kind: KKw, Sym: gd}, mk(cs[a])}}}}
+		return []*Expr{mk(cs[a]), opt, x.punct(), mk(cs[b]), x.punct(), mk(cs[b]), x.punct()}
 	case k >= 22: // helper nonterminal (more weight)
 		k = 12
 		fallthrough
@@ -480,6 +522,9 @@ func Rand(r *rand.Rand, opt Options) *Grammar {
 			}
 		}
 	}
+	if r.Intn(100) < 60 {
+		x.twinLists()
+	}
 	if r.Intn(2) == 0 {
 		g.Extra = append(g.Extra, "Extra1")
 		// a category that is used by the reachable part of the grammar
@@ -495,6 +540,40 @@ func Rand(r *rand.Rand, opt Options) *Grammar {
 		}
 	}
 	return g
+}
+
+// twinLists appends to two rule bodies lists whose elements are identical except
+// for the node name after '->': "(id -> Ta)+" and "(id -> Tb)+".
+func (x *gen) twinLists() {
+	g, r := x.g, x.r
+	reach := g.reachable()
+	var bodies []*Expr
+	for i, n := range g.Nonterms {
+		if !reach[i] {
+			continue
+		}
+		for _, ru := range n.Rules {
+			if len(ru.Body.Sub) > 0 && !ru.Bare && !(n.Kind == NHelper && ru.Body.Sub[0].Kind == KRef) {
+				bodies = append(bodies, ru.Body)
+			}
+		}
+	}
+	if len(bodies) == 0 {
+		return
+	}
+	tok := r.Intn(len(g.Toks))
+	sep := -1
+	if r.Intn(2) == 0 {
+		sep = sepKw
+	}
+	plus := r.Intn(3) > 0
+	for i := 0; i < 2; i++ {
+		b := bodies[r.Intn(len(bodies))]
+		el := &Expr{Kind: KArrow, Arrow: x.newType(), Sub: []*Expr{{Kind: KSeq, Sub: []*Expr{{Kind: KTok, Sym: tok}}}}}
+		l := &Expr{Kind: KList, Sep: sep, Plus: plus, Sub: []*Expr{el}}
+		b.Sub = append(b.Sub, x.punct(), l, x.punct())
+	}
+	g.TwinLists = true
 }
 
 func (g *Grammar) reachable() []bool {
